@@ -257,18 +257,24 @@ def _shared(ctx, rng, binary, ex):
 
 
 def _overrides(ctx, rng, binary, ex):
-    """every line with several interacting overrides 8 times in one batch (concurrency 1 and 8) and in a second session:
-    all result folders of a line byte-identical"""
+    """repeated evaluation of (a) lines with several interacting overrides and (b) the configuration sweep (one key / one pair of
+    switches away from the project's configuration): in one batch, at several concurrency levels and in several sessions; all
+    result folders of a line byte-identical"""
     keys = list(B.OVERRIDES)
+    valid_sweep = [k for k in B.SWEEP if k not in B.SWEEP_NOT_VALID]
+    sweep = valid_sweep if ctx.thorough else rng.sample(valid_sweep, 60)
+    pool = dict(B.OVERRIDES); pool.update(B.SWEEP)
     reps = 12 if ctx.thorough else 8
     runs = []
-    for tag, c in (("ov_a_c1", 1), ("ov_b_c8", 8), ("ov_c_c3", 3)):
-        order = keys * reps
+    for tag, c, orep, srep in (("ov_a_c1", 1, reps, 0), ("ov_b_c8", 8, reps, 2), ("ov_c_c3", 3, reps, 1), ("ov_d_c16", 16, 0, 1)):
+        order = keys * orep + sweep * srep
         rng.shuffle(order)
-        e = B.run_batch(binary, ex, tag, order, B.OVERRIDES, c, rng.choice(GMPS))
+        e = B.run_batch(binary, ex, tag, order, pool, c, rng.choice(GMPS), timeout=900)
         runs.append((e, [B.folder_digest(os.path.join(e.root, "l%d" % i)) for i in range(len(order))]))
         shutil.rmtree(e.root, ignore_errors=True)
-    return runs
+    _cache["sweep_info"] = {"lines_in_sweep": len(B.SWEEP), "valid": len(valid_sweep), "run_this_time": len(sweep), "evaluations_per_line": 4,
+                            "not_valid_for_the_project_files": len(B.SWEEP_NOT_VALID)}
+    return runs, pool
 
 
 def _fout(ctx):
@@ -291,6 +297,7 @@ def _run(ctx):
         _cache["race_build_error"] = str(e)[-600:]
     ex = B.setup_examples(ctx)
     B.make_odd_weather(ex)
+    B.make_sweep_inputs(ex)
     pool = dict(B.VALID); pool["bad"] = B.FAILING["unknown-soil-id"]; pool.update(B.ODD)
     if ctx.thorough:
         pool.update(B.LONG)
@@ -405,11 +412,11 @@ def correspond(ctx):
         for x in execs:
             if x.died():
                 c.mismatches.append({"kind": "execution", "tag": x.tag, "what": "process did not finish normally", "rc": x.rc, "stderr": x.stderr[-600:]})
-    for e, digs in r["overrides"]:
+    for e, digs in r["overrides"][0]:
         c.cases += 1; c.nontrivial += 1
         if e.died():
             c.mismatches.append({"kind": "execution", "tag": e.tag, "what": "process did not finish normally", "rc": e.rc, "stderr": e.stderr[-600:]})
-    c.dist["override_lines"] = len(B.OVERRIDES); c.dist["override_evaluations_per_line"] = sum(len(e.contents) for e, _ in r["overrides"]) // max(1, len(B.OVERRIDES))
+    c.dist["override_lines"] = len(B.OVERRIDES); c.dist["configuration_sweep_lines_run"] = r["sweep_info"]["run_this_time"]
     iks, ikr = r["ik"]
     c.cases += len(iks) + len(ikr); c.nontrivial += len(iks) + len(ikr)
     c.dist["interpretation_key_lines"] = len(iks); c.dist["interpretation_key_group_runs"] = len(ikr)
@@ -496,10 +503,12 @@ def oracle(ctx, search):
                                          " ; hermes2go -module batch -concurrent 1 -batch <file>; compare A/l0 with B/l%d" % i))
     # several interacting overrides on one line: every evaluation of the line gives the same files
     first = {}
-    for e, digs in r["overrides"]:
+    ovpool = r["overrides"][1]
+    for e, digs in r["overrides"][0]:
         if e.died() or e.count != 0:
             fails.append(Fail(key="overrides:%s" % ("died" if e.died() else "errors"), what="batch of lines with several overrides did not finish cleanly",
-                              rc=e.rc, summary=e.summary, stderr=e.stderr[-500:], lines=[B.OVERRIDES[k] for k in B.OVERRIDES]))
+                              rc=e.rc, summary=e.summary, stderr=e.stderr[-500:],
+                              failed_lines=[ovpool[e.contents[i]] for i in (e.summary or [])][:6]))
             continue
         for i, k in enumerate(e.contents):
             compared += 1
@@ -508,12 +517,12 @@ def oracle(ctx, search):
             elif digs[i] != first[k][0]:
                 d0 = first[k][0]
                 diff = sorted(f for f in set(digs[i]) | set(d0) if digs[i].get(f) != d0.get(f))
-                fails.append(Fail(key="override-order:%s:%s" % (k, diff[0][:1] if diff else "?"),
-                                  what="the same batch line (several interacting configuration overrides on one line) gives different result files "
-                                       "from one evaluation to the next (same session or another session)",
-                                  line=B.OVERRIDES[k], files=diff[:6], first_seen="%s line %d" % first[k][1:], differs="%s line %d" % (e.tag, i),
+                fails.append(Fail(key="%s:%s:%s" % ("sweep-repeat" if k.startswith("sw:") else "override-order", k, diff[0][:1] if diff else "?"),
+                                  what="the same batch line (non-default configuration key / several interacting overrides on one line) gives different "
+                                       "result files from one evaluation to the next (same session or another session)",
+                                  line=ovpool[k], files=diff[:6], first_seen="%s line %d" % first[k][1:], differs="%s line %d" % (e.tag, i),
                                   replay="cd <copy of /repo/examples>; batch file with the line `%s resultfolder=O/l<i>` 16 times (i = 0..15); "
-                                         "hermes2go -module batch -concurrent 1 -batch <file>; compare O/l0 .. O/l15 byte for byte" % B.OVERRIDES[k]))
+                                         "hermes2go -module batch -concurrent 1 -batch <file>; compare O/l0 .. O/l15 byte for byte" % ovpool[k]))
     # lines sharing input files and ids, differing in one interpretation key: each equal to its solo run
     fails += B.interp_fails(Fail, *r["ik"])
     compared += sum(len(e.contents) for e, _ in r["ik"][1])
@@ -585,6 +594,9 @@ def oracle(ctx, search):
                                              "first `%s resultfolder=B/l0`, then `%s resultfolder=B/l0`; compare A/l0 with B/l0 byte for byte "
                                              "(hermes2go -module batch -concurrent 1 -batch <file>)" % (
                                                  ru["pool"][k], how, ru["pool"][k + "#long"], ru["pool"][k])))
+    ctx.extra["configuration_sweep"] = dict(r["sweep_info"], what="batch lines with one configuration key (or one pair of interacting switches) away "
+                                            "from the project's configuration, 6 projects; each evaluated 4 times (twice in one batch at concurrency 8, "
+                                            "once at 3, once at 16, three sessions), all result folders byte-identical; thorough tier runs the whole sweep")
     ctx.extra["reuse_modes"] = list(ru["modes"]); ctx.extra["reuse_file_kinds"] = ru["kinds"]
     ctx.extra["reuse_longer_first_runs_differ"] = ru.get("long_really_longer")
     ctx.extra["result_folders_compared"] = compared
